@@ -575,7 +575,32 @@ pub fn case(cfg: &CaseCfg) -> BoxedStrategy<Case> {
         };
         recorders[k].push(Reaction { at, what });
       }
-      Case { root, hots: kinds, hot_illformed: cfg.gen.ill_formed, recorders, actions }
+      // generator soundness: a Behavior/ReplaySubject replays a stored error to every new
+      // subscriber, so below retry_when(code < k) it must not store an accepted code
+      let mut floor = 0u32;
+      root.walk(&mut |n| {
+        if let Node::Un(Op::RetryWhen(RPred::CodeLt(k)), _) = n {
+          floor = floor.max(*k);
+        }
+      });
+      if floor > 0 {
+        let sticky = |i: usize| matches!(kinds.get(i), Some(HotKind::Behavior(_)) | Some(HotKind::Replay));
+        for a in actions.iter_mut() {
+          if let Action::Emit(i, Ev::E(c)) = a {
+            if sticky(*i) && *c < floor {
+              *c = floor;
+            }
+          }
+        }
+        for r in recorders.iter_mut().flatten() {
+          if let React::Emit(i, Ev::E(c)) = &mut r.what {
+            if sticky(*i) && *c < floor {
+              *c = floor;
+            }
+          }
+        }
+      }
+      Case { root, hots: kinds, hot_illformed: cfg.gen.ill_formed, conn: None, recorders, actions }
     })
     .boxed()
 }
